@@ -17,6 +17,13 @@
                                    the caller executes its next k statements (`<outs> L<lock>`), the incoming thread is
                                    given a packet (`blocked`: it has to wait / not possible now), the call has returned
                                    (`T` | `F` | `pending`)
+  freset | fbeh <c> <script> | fsub <k> <c> | funsub <k> <c> | fread .. | fwrite .. | fpkt .. | fdisc | oneshot
+                                   the notification Callers with subscribers (`CallerVariant.code`): k = 0..3 (mem_read_cb,
+                                   mem_read_failed_cb, mem_write_cb, mem_write_failed_cb); script = what subscriber c does at its
+                                   1st/2nd/.. invocation: `/`-separated lists of `a<k>:<c>` (subscribe) / `r<k>:<c>` (guarded
+                                   unsubscribe), `-` = nothing; replies carry `<c>=<notification>;..` (who was told) in addition.
+                                   `oneshot`: self-removing application listeners ahead of the client's own: no effect (theorem
+                                   every_registered_subscriber_is_told_exactly_once)
   reply: `<res> <outs> L<lock>`  res = T | F | N | E:<enum> | H ;  outs = `;`-joined or `-`:
          S<chan>:<hex>  RO:<tag>:<id>:<addr>:<hex>  RF:...  WO:<tag>:<id>:<addr>  WF:...  P:<tag>:<pct>
 -/
@@ -62,6 +69,8 @@ structure DSt where
   dk : Deck := Deck.new 0
   cs : CState := ⟨St.init, none⟩
   cres : String := "T"
+  fs : FSt := FSt.init
+  scripts : List (Nat × List (List SubAct)) := []
 
 def showTOut : TOut → String
   | .updateFinished cb => s!"TU:{cb}"
@@ -91,6 +100,37 @@ def parseDeckVariant? (s : String) : Option DeckVariant :=
   else match s.toList.map (fun c => if c == '1' then some true else if c == '0' then some false else none) with
     | [some a, some b, some c, some e] => some ⟨a, b, c, e⟩
     | _ => none
+
+def parseKind? (s : String) : Option NKind :=
+  if s == "0" then some .rOk else if s == "1" then some .rFail else if s == "2" then some .wOk
+  else if s == "3" then some .wFail else none
+
+def parseSubAct? (s : String) : Option SubAct :=
+  match s.splitOn ":" with
+  | [h, c] =>
+    match h.toList, c.toNat? with
+    | [op, k], some c =>
+      match parseKind? (String.singleton k) with
+      | some k => if op == 'a' then some (.add k c) else if op == 'r' then some (.remove k c) else none
+      | none => none
+    | _, _ => none
+  | _ => none
+
+def parseScript? (s : String) : Option (List (List SubAct)) :=
+  (s.splitOn "/").mapM fun inv => if inv == "-" then some [] else (inv.splitOn ",").mapM parseSubAct?
+
+/-- subscriber `c` performs the i-th entry of its script at its i-th invocation -/
+def scriptBeh (scripts : List (Nat × List (List SubAct))) : SBeh := fun told c _ =>
+  let n := (told.filter (fun e => e.1 == c)).length - 1
+  match scripts.find? (fun e => e.1 == c) with
+  | some e => e.2.getD n []
+  | none => []
+
+def fanStep (d : DSt) (e : FEv) : DSt × String :=
+  let r := fstep CallerVariant.code (scriptBeh d.scripts) d.fs e
+  let new := r.1.f.told.drop d.fs.f.told.length
+  let ts := if new.isEmpty then "-" else ";".intercalate (new.map fun x => s!"{x.1}={showOut x.2}")
+  ({ d with fs := r.1 }, s!"{showStep r.2} {ts}")
 
 def dstep (d : DSt) (ws : List String) : DSt × String :=
   match ws with
@@ -183,6 +223,33 @@ def dstep (d : DSt) (ws : List String) : DSt × String :=
       let (t', touts) := testerReact d.t r.outs
       ({ d with st := r.st, t := t' }, showWithTester r t' touts)
     | _, _ => (d, "bad-op")
+  | ["oneshot"] => (d, "ok")
+  | ["freset"] => ({ d with fs := FSt.init, scripts := [] }, "ok")
+  | ["fbeh", c, script] =>
+    match c.toNat?, parseScript? script with
+    | some c, some sc => ({ d with scripts := (c, sc) :: d.scripts.filter (fun e => e.1 != c) }, "ok")
+    | _, _ => (d, "bad-op")
+  | ["fsub", k, c] =>
+    match parseKind? k, c.toNat? with
+    | some k, some c => fanStep d (.sub (.add k c))
+    | _, _ => (d, "bad-op")
+  | ["funsub", k, c] =>
+    match parseKind? k, c.toNat? with
+    | some k, some c => fanStep d (.sub (.remove k c))
+    | _, _ => (d, "bad-op")
+  | ["fread", tag, id, addr, len] =>
+    match tag.toNat?, id.toNat?, addr.toNat?, len.toNat? with
+    | some t, some i, some a, some l => fanStep d (.mem (.read t i a l))
+    | _, _, _, _ => (d, "bad-op")
+  | ["fwrite", tag, id, addr, data, flush, prog] =>
+    match tag.toNat?, id.toNat?, addr.toNat?, ofHex? data, parseBool? flush, parseBool? prog with
+    | some t, some i, some a, some da, some f, some p => fanStep d (.mem (.write t i a da f p))
+    | _, _, _, _, _, _ => (d, "bad-op")
+  | ["fpkt", chan, data] =>
+    match chan.toNat?, ofHex? data with
+    | some c, some da => if c == Gen.C06.chanInfo || c > 3 then (d, "bad-op") else fanStep d (.mem (.pkt c da))
+    | _, _ => (d, "bad-op")
+  | ["fdisc"] => fanStep d (.mem .disconnect)
   | ["creset"] => ({ d with cs := ⟨St.init, none⟩, cres := "T" }, "ok")
   | ["cwrite", tag, id, addr, data, flush, prog] =>
     match tag.toNat?, id.toNat?, addr.toNat?, ofHex? data, parseBool? flush, parseBool? prog with
